@@ -93,7 +93,7 @@ def pick_pos(rng, ex, lines, bias):
     return rng.randint(0, n)
 
 
-EDIT_KINDS = ["insert", "insert", "insert", "delete", "replace", "modify", "reindent", "append"]
+EDIT_KINDS = ["insert", "insert", "insert", "delete", "replace", "modify", "modify_part", "modify_part", "reindent", "append"]
 USPACES = "\u00a0\u3000\u2000\u2001\u2002\u2003\u2004\u2005\u2006\u2007\u2008\u2009\u200a"
 POS_CLASSES = ["top", "bottom", "above_ai", "below_ai", "inside_ai", "any", "any"]
 
@@ -136,6 +136,25 @@ def mutate(rng, ex, content, who, hazards=None, kinds=None, pos_classes=None, ma
         for i in idxs:
             parts = lines[i].split(" ")
             lines[i] = " ".join(parts[:1] + ["m%d" % ex.fresh_id()] + parts[1:2] + [words(rng, 2)])
+        desc.update(lines=idxs)
+    elif kind == "modify_part":
+        # intra-line, one region only (begin / middle / end): lines collect tokens of several ages
+        idxs = sorted(rng.sample(range(len(lines)), min(k, len(lines))))
+        for i in idxs:
+            parts = lines[i].split(" ")
+            tok = "p%d" % ex.fresh_id()
+            where = rng.choice(["end", "end", "begin", "middle", "replace_one"])
+            if where == "end":
+                parts.append(tok)
+            elif where == "begin" and len(parts) > 1:
+                parts.insert(1, tok)
+            elif where == "middle" and len(parts) > 2:
+                parts.insert(len(parts) // 2 + 1, tok)
+            elif len(parts) > 1:
+                parts[rng.randint(1, len(parts) - 1)] = tok
+            else:
+                parts.append(tok)
+            lines[i] = " ".join(parts)
         desc.update(lines=idxs)
     elif kind == "reindent":
         # whitespace-only: must not change any author
